@@ -147,6 +147,8 @@ def _cpdag_case(draw):
     A = draw(S.dag_pattern(6, 9, shapes=("random", "sparse", "dense", "collider", "chain")))
     if draw(st.integers(0, 2)) == 0:
         A = draw(S.embedded(draw(S.dag_pattern(3, 6, shapes=("random", "dense", "collider", "complete")))))
+    elif draw(st.integers(0, 4)) == 0:
+        A = draw(S.disjoint_union(S.dag_pattern(2, 4, shapes=("random", "chain", "collider", "complete")), 3, 4))
     return {"sub": "cpdag_hyp", "A": A, "variants": draw(st.sampled_from([["int"], ["float"], ["weighted"], ["uint8"], ["bool"], ["float32"]])),
             "salt": draw(st.integers(0, 7))}
 
@@ -156,6 +158,8 @@ def _p2c_case(draw):
     P = draw(S.pdag(6, 7, max_undirected=8, weights=(4, 2, 2)))
     if draw(st.integers(0, 2)) == 0:
         P = draw(S.embedded(draw(S.pdag(3, 6, max_undirected=8, weights=(2, 3, 3)))))
+    elif draw(st.integers(0, 4)) == 0:
+        P = draw(S.disjoint_union(S.pdag(2, 3, weights=(1, 2, 4)), 3, 4))
     return {"sub": "p2c_hyp", "P": P, "dtype": draw(st.sampled_from(DTYPE_NAMES))}
 
 
